@@ -105,14 +105,14 @@ Lemma req_body_c18 base s q script : G Q0 base s ->
     (rc = RSess -> c18_sess q script s3 sr fin cks).
 Proof.
   intros Hg. unfold req_body.
-  destruct (start_G Q0 DEL0 Q0_qt Q0_new Q0_repl Q0_del base s q Hg) as (s2 & res & cks0 & E & G2 & N2 & H2).
+  destruct (start_G Q0 DEL0 Q0_qt Q0_new Q0_repl Q0_del base s q Hg) as (s2 & res & cks0 & E & G2 & N2 & H2 & _).
   { intros; exact Logic.I. }
   rewrite E. destruct (fire_due_G Q0 FOK0 Q0_fire _ _ G2 Logic.I) as (G3 & N3 & H3 & _).
   assert (Hheap : heap (fire_due s2) = heap s2) by (destruct G2 as (I2 & _); apply (HistInv3.fire_due_inv _ _ _ _ I2)).
   destruct res as [[o|]|e|e]; try (do 6 eexists; split; [reflexivity|]; split; [exact G3 | intro Hx; discriminate]).
   destruct (H2 o eq_refl) as (Hh2 & k0 & Hk0 & Hck).
   destruct (run_script_G Q0 DEL0 FOK0 Q0_qt Q0_repl Q0_del Q0_fire base (had_cookie q) script (fire_due s2) o G3 (H3 o Hh2) Logic.I)
-    as (s3 & sr & cks' & E' & G' & N' & Hd' & R' & C').
+    as (s3 & sr & cks' & E' & G' & N' & Hd' & R' & C' & _).
   { intros _ s0 ob _ _ _. exact Logic.I. }
   cbv zeta. rewrite E'. do 6 eexists. split; [reflexivity|]. split; [exact G'|]. intros _.
   rewrite (hid_heap _ _ o Hheap), Hk0 in C'.
